@@ -72,3 +72,18 @@ Theorem C14_lookup_is_source_lookup : forall s ids key nested,
   _find_attrpath_root nat (fun _ => true) (name_of s) (nested_of s) ids key = find_root s ids key.
 Proof. exact (fun s ids key nested => conj (find_binding_refines s ids key) (conj (find_named_refines s ids key nested) (find_root_refines s ids key))). Qed.
 Print Assumptions C14_lookup_is_source_lookup.
+
+(* which set the mapping operates on: the model of NixSourceCode._resolve_target_set (frame matched literally, tools/maptarget2v.py; table-world
+   correspondence `mapping-target`) returns an attribute set, and through any stack of assert / let / parenthesis wrappers it is the SAME set the
+   CLI's traversal (regenerated, tools/target2v.py) finds — text edits and mapping edits address one set *)
+From Dyn Require Import TargetGen TargetProps MapTargetGen MapTargetProps.
+Close Scope string_scope. Open Scope list_scope.
+Theorem C14_map_target_is_a_set : forall (w : world) fuel es s r s', map_target_top w fuel es s = (RVal r, s') -> w_cls w r = CSet.
+Proof. exact map_target_is_a_set. Qed.
+Print Assumptions C14_map_target_is_a_set.
+Theorem C14_targets_agree_on_wrappers : forall (w : world) ws r sc v st,
+  linked (wN w) (w_cls w) (w_body w) (w_value w) ws r -> w_cls w r = CSet -> NoDup (ws ++ [r]) -> (forall x, In x (ws ++ [r]) -> ~ In x v) ->
+  (forall x, In x (ws ++ [r]) -> scopes_ok (wN w) (wSC w) (w_store w) (w_scopes w) x sc st) ->
+  map_target w (S (List.length ws)) (hd r ws) sc (v, st) = target w (S (List.length ws)) (hd r ws) sc (v, st).
+Proof. exact targets_agree_on_wrappers. Qed.
+Print Assumptions C14_targets_agree_on_wrappers.
